@@ -12,7 +12,7 @@
 (* 4. the SERIALISER over instance graphs (cycles, shared references)      *)
 (*                                                                         *)
 (* Every operator takes the class table `cl` explicitly                    *)
-(*   cl : class name -> [meta : "none" | "full" | "diff",                  *)
+(*   cl : class name -> [meta, extends ("" = none),                        *)
 (*                        fields : Seq([py, wire, ty, req])]                *)
 (* so that generators (Gen_Codec), the design model (MC_Codec) and the     *)
 (* monitor (Trace_Codec) share one definition.                             *)
@@ -57,7 +57,9 @@ EffTy(f) == IF f.req \/ f.ty.k = "opt" THEN f.ty ELSE OptT(f.ty)
 \* of inherited fields: meta = "inherit" (no own Meta: the parent's maps apply, new fields are unmapped),
 \* "extend" (Meta = parent's maps + own entries), "own" (Meta lists only the own entries: inherited fields that are
 \* not overridden fall back to their python names).  Fs(cl, n) = all fields of n, inherited first.
-HasParent(cl, n) == "extends" \in DOMAIN cl[n]
+\* every entry carries `extends` ("" = no parent).  (Testing `"extends" \in DOMAIN cl[n]` instead is pathologically
+\* slow in TLC's -coverage mode.)
+HasParent(cl, n) == cl[n].extends # ""
 RECURSIVE FsRec(_, _)
 FsRec(cl, n) ==
   IF ~HasParent(cl, n) THEN cl[n].fields
@@ -73,8 +75,7 @@ Fs(cl, n) == IF HasParent(cl, n) THEN FsRec(cl, n) ELSE cl[n].fields
 \* the same table with every hierarchy resolved (each class lists all of its fields, no `extends`): what the
 \* semantic operators below are applied to (Fs of a flat table is a plain field access)
 Flat(cl) == [n \in DOMAIN cl |->
-               IF "pyname" \in DOMAIN cl[n] THEN [meta |-> cl[n].meta, fields |-> Fs(cl, n), pyname |-> cl[n].pyname]
-               ELSE [meta |-> cl[n].meta, fields |-> Fs(cl, n)]]
+               [meta |-> cl[n].meta, extends |-> "", pyname |-> cl[n].pyname, fields |-> Fs(cl, n)]]
 RECURSIVE Ancestors(_, _)
 Ancestors(cl, n) == IF HasParent(cl, n) THEN {cl[n].extends} \cup Ancestors(cl, cl[n].extends) ELSE {}
 
@@ -141,8 +142,8 @@ KeysBijective(cl, n) ==
   LET fs == Fs(cl, n) IN \A i, j \in 1..Len(fs) : i # j => (fs[i].py # fs[j].py /\ fs[i].wire # fs[j].wire)
 \* Class identity is the table key.  DISTINCT classes may share their python name (`__module__` + `__qualname__`):
 \* models returned by a factory (`page_of(User)` / `page_of(Order)` are both `page_of.<locals>.Page`),
-\* `make_dataclass` under a fixed name, a reloaded model module.  An entry may carry `pyname`; default = its key.
-PyClsName(cl, n) == IF "pyname" \in DOMAIN cl[n] THEN cl[n].pyname ELSE n
+\* `make_dataclass` under a fixed name, a reloaded model module.  Every entry carries `pyname` ("" = its key).
+PyClsName(cl, n) == IF cl[n].pyname = "" THEN n ELSE cl[n].pyname
 
 MetaConsistent(cl, n) ==
   LET own == cl[n].fields IN
